@@ -21,7 +21,8 @@ RULE = ('windows of consecutive generate_id() issues on real server objects: '
         'random} x random sources {os CSPRNG, constant, period-2, period-3} x '
         '1..5 interleaved server instances (threaded and asyncio); windows '
         'in which other things happen to the server between issues (shutdown(), '
-        'disconnect(), send() to unknown ids, handler registration, issues '
+        'disconnect(), send() to unknown ids, handler registration, a complete '
+        'concurrent issue nested inside the random call of another, issues '
         'through the real open request whose OPEN sid is checked); quick '
         'windows 2^17 (exact set uniqueness), thorough adds ONE FULL PERIOD '
         '2^24+1 issues per start counter with the constant source (bitset on '
@@ -34,7 +35,8 @@ ASSUMPTIONS = ['os.urandom / secrets is a CSPRNG (quality trusted)',
                'of the id contains, contiguously, the first 12 bytes the '
                'monitored source returned for that issue']
 REQUIRED = ['issue_monitor', 'format', 'provenance', 'uniqueness_window',
-            'counter_step', 'life_op_shutdown', 'open_sid_checked']
+            'counter_step', 'life_op_shutdown', 'open_sid_checked',
+            'life_op_concurrent_issue']
 SHARD_TIMEOUT = {'quick': 300, 'thorough': 3000}
 
 FMT = re.compile(r'^[A-Za-z0-9_-]{20}$')
@@ -51,9 +53,16 @@ class Source:
         self.calls = []      # (nbytes, returned) of the current issue
         self.n = 0
 
+    reenter = None      # callable run once inside the next draw
+
     def token_bytes(self, nbytes=None):
         if nbytes is None:
             nbytes = 32
+        if self.reenter is not None:
+            # models another request thread running a complete issue while
+            # this one is inside the (GIL-releasing) random call
+            f, self.reenter = self.reenter, None
+            f()
         self.n += 1
         if self.mode == 'os':
             b = real_secrets.token_bytes(nbytes)
@@ -255,7 +264,15 @@ def run_window(rec, mode, start, count, kinds, full=False, ops=0):
             while n < count:
                 for i, s in enumerate(servers):
                     sid = None
-                    if n == next_op:
+                    if n == next_op and opr.random() < 0.3:
+                        # a concurrent issue on the same server, nested in
+                        # the random call of the next one
+                        next_op = n + opr.randint(1, 400)
+                        rec.count('life_op_concurrent_issue')
+                        # (monitored by hand: icontract does not evaluate
+                        # contracts of a re-entrant call)
+                        src.reenter = lambda s=s: post(s, orig_gen(s))
+                    elif n == next_op:
                         next_op = n + opr.randint(1, 400)
                         issued0 = rec.counters['issue_monitor']
                         sid = life_op(rec, s, opr, loop)
